@@ -55,6 +55,7 @@ type gen struct {
 	// makes memory and log disagree, which Merge then turns into data loss)
 	noSMove bool
 	noSPop  bool
+	managedToo bool // use DB.Update / DB.View for part of the transactions
 	oneBucket bool
 	paged   bool
 	focus   map[string]string
@@ -211,8 +212,12 @@ func (g *gen) kvReads(t *hx.Tx, b string, full bool) {
 	}
 }
 
-// view runs f in a recorded read-only transaction.
+// view runs f in a recorded read-only transaction (half of the time through DB.View).
 func (g *gen) view(f func(t *hx.Tx)) {
+	if g.managedToo && g.r.Intn(2) == 0 {
+		g.s.Managed(false, g.r.Intn(4) == 0, nil, f)
+		return
+	}
 	t, err := g.s.Begin(false)
 	if err != nil {
 		return
@@ -221,8 +226,11 @@ func (g *gen) view(f func(t *hx.Tx)) {
 	t.Rollback()
 }
 
-// update runs f in a recorded write transaction and commits it.
+// update runs f in a recorded write transaction and commits it (half of the time through DB.Update).
 func (g *gen) update(f func(t *hx.Tx)) error {
+	if g.managedToo && g.r.Intn(2) == 0 {
+		return g.s.Managed(true, false, nil, f)
+	}
 	t, err := g.s.Begin(true)
 	if err != nil {
 		return err
@@ -1057,7 +1065,7 @@ func (g *gen) histMixed(o mixOpts) {
 		} else {
 			fate := "commit"
 			if g.r.Intn(100) < o.pNoCommit {
-				fate = pick(g.r, []string{"rollback", "oversize", "fault", "sweep", "syncfault"})
+				fate = pick(g.r, []string{"rollback", "fnerr", "oversize", "fault", "sweep", "syncfault"})
 				if !o.faults && (fate == "fault" || fate == "syncfault" || fate == "sweep") {
 					fate = "rollback"
 				}
@@ -1128,6 +1136,10 @@ func (g *gen) histMixed(o mixOpts) {
 			switch fate {
 			case "rollback":
 				t.Rollback()
+			case "fnerr":
+				// the same operations once more, through DB.Update with a function that returns an error
+				t.Rollback()
+				g.s.Managed(true, true, nil, body)
 			case "fault", "syncfault":
 				// fail the k-th file mutation of this commit (a write, possibly
 				// after a partial write; or a sync after a completed write)
@@ -1268,7 +1280,7 @@ func main() {
 		fmt.Fprintln(os.Stderr, "harness:", err)
 		os.Exit(2)
 	}
-	g := &gen{c: c, r: rand.New(rand.NewSource(c.Seed)), s: &hx.Sess{R: rec}}
+	g := &gen{c: c, r: rand.New(rand.NewSource(c.Seed)), s: &hx.Sess{R: rec}, managedToo: true}
 	g.seed0 = c.Seed
 	writeSummary := func() {
 		if c.Summary != "" {
